@@ -34,6 +34,8 @@ pub enum Node {
     Link { name: String, target: LT },
     /// a 2-cycle of symlinks a -> b, b -> a
     Cycle { name: String },
+    /// a HARD link to a file outside the layer (0 = read-only canary file, 1 = canary file 0640, 2 = sibling layer file 0444)
+    HardLink { name: String, target: u8 },
 }
 
 #[derive(Clone, Debug, PartialEq, Eq, Hash)]
@@ -82,6 +84,7 @@ fn node_strategy(depth: u32) -> BoxedStrategy<Node> {
         4 => (name_strategy(), 0usize..3).prop_map(|(name, m)| Node::File { name, mode: FILE_MODES[m] }),
         4 => (name_strategy(), lt_strategy()).prop_map(|(name, target)| Node::Link { name, target }),
         1 => name_strategy().prop_map(|name| Node::Cycle { name }),
+        2 => (name_strategy(), 0u8..3).prop_map(|(name, target)| Node::HardLink { name, target }),
     ];
     if depth == 0 {
         return leaf.boxed();
@@ -111,6 +114,7 @@ fn node_json(n: &Node) -> Value {
         Node::File { name, mode } => json!({"file": name, "mode": format!("{mode:o}")}),
         Node::Link { name, target } => json!({"link": name, "target": format!("{target:?}")}),
         Node::Cycle { name } => json!({"cycle": name}),
+        Node::HardLink { name, target } => json!({"hardlink": name, "to": target}),
     }
 }
 fn node_from_json(v: &Value) -> Node {
@@ -123,6 +127,8 @@ fn node_from_json(v: &Value) -> Node {
         let t = v["target"].as_str().unwrap();
         let all = [LT::InsideFile, LT::InsideDir, LT::SiblingFile, LT::SiblingDir, LT::CanaryFileRel, LT::CanaryFileAbs, LT::CanaryDirRel, LT::CanaryDirAbs, LT::CanaryRoDir, LT::Dangling, LT::SelfLoop, LT::LayersDir, LT::Root];
         Node::Link { name: n.as_str().unwrap().into(), target: all.into_iter().find(|x| format!("{x:?}") == t).unwrap() }
+    } else if let Some(n) = v.get("hardlink") {
+        Node::HardLink { name: n.as_str().unwrap().into(), target: v["to"].as_u64().unwrap() as u8 }
     } else {
         Node::Cycle { name: v["cycle"].as_str().unwrap().into() }
     }
@@ -188,6 +194,18 @@ fn build_nodes(dir: &Path, nodes: &[Node], root: &Path, depth: usize, chmods: &m
                 };
                 std::os::unix::fs::symlink(t, p).unwrap();
             }
+            Node::HardLink { name, target } => {
+                let p = dir.join(name);
+                if std::fs::symlink_metadata(&p).is_ok() {
+                    continue;
+                }
+                let t = match target {
+                    0 => root.join("canary/readonly.txt"),
+                    1 => root.join("canary/keep.txt"),
+                    _ => root.join("layers/lay2/data.txt"),
+                };
+                let _ = std::fs::hard_link(t, p);
+            }
             Node::Cycle { name } => {
                 let a = dir.join(format!("{name}-a"));
                 let b = dir.join(format!("{name}-b"));
@@ -230,6 +248,7 @@ pub fn build_scenario(root: &Path, c: &Case) {
     std::fs::create_dir_all(canary.join("ro-dir")).unwrap();
     std::fs::create_dir_all(canary.join("layer-like/nested")).unwrap();
     std::fs::write(canary.join("keep.txt"), b"keep me").unwrap();
+    std::fs::write(canary.join("readonly.txt"), b"read-only file that may be hard-linked into the layer").unwrap();
     std::fs::write(canary.join("sub/deep/file"), b"deep").unwrap();
     std::fs::write(canary.join("sub/other"), b"other").unwrap();
     std::fs::write(canary.join("ro-dir/inner.txt"), b"inner").unwrap();
@@ -242,6 +261,7 @@ pub fn build_scenario(root: &Path, c: &Case) {
     chmods.push((canary.join("secret"), 0o000));
     chmods.push((canary.join("layer-like"), 0o750));
     chmods.push((canary.join("keep.txt"), 0o640));
+    chmods.push((canary.join("readonly.txt"), 0o444));
     // sibling layers, incl. names that share the target's prefix
     for sib in ["sib one", "lay2", "lay.extra"] {
         let d = layers.join(sib);
@@ -296,6 +316,7 @@ fn nontrivial(c: &Case) -> bool {
         nodes.iter().any(|n| match n {
             Node::Link { target, .. } => !matches!(target, LT::InsideFile | LT::InsideDir | LT::Dangling | LT::SelfLoop),
             Node::Dir { mode, children, .. } => (mode & 0o300) != 0o300 || walk(children),
+            Node::HardLink { .. } => true,
             _ => false,
         })
     }
@@ -365,7 +386,7 @@ fn run_case(ctx: &Ctx, scratch: &Path, c: &Case, drop_uid: bool) -> Check {
 }
 
 pub fn run(ctx: &Ctx) {
-    ctx.set_rule("generated layer trees (depth <= 4, modes dirs {000,111,444,555,666,755} files {000,444,644}; symlinks to files/dirs inside the layer, in a sibling layer, in a canary tree outside <layers> (relative and absolute, also to a read-only dir), to <layers> itself and to '/', dangling, self-loops, 2-cycles) with the layer path being a real directory or a symlink to a canary dir / sibling layer / empty outside dir / canary file / nowhere; around it a canary tree with odd modes, three sibling layers (two sharing the name prefix) with TOML, SBOM and env, lay.toml.bak, store.toml. Three deletion routes: uncached_layer, cached_layer + DeleteLayer, handle_layer + Recreate; each case in a fresh worker process, once after dropping to uid/gid 65534 (tree chowned to it, so permission bits bind) and once as root. Oracle: (a) always: lstat snapshot (content, mode, link target) of everything outside <layers>/lay, lay.toml, lay.sbom.* identical before/after; (b) on Ok: the layer path is a real empty directory, no old entry exists, SBOM gone; a real-directory layer owned by the caller must be deleted successfully. Non-trivial: the layer path is a symlink, or the tree has a symlink whose target lies outside the layer, or a nested directory lacks w or x; distinct = hash of the case.");
+    ctx.set_rule("generated layer trees (depth <= 4, modes dirs {000,111,444,555,666,755} files {000,444,644}; symlinks to files/dirs inside the layer, in a sibling layer, in a canary tree outside <layers> (relative and absolute, also to a read-only dir), to <layers> itself and to '/', dangling, self-loops, 2-cycles; HARD links to read-only files in the canary tree and in a sibling layer) with the layer path being a real directory or a symlink to a canary dir / sibling layer / empty outside dir / canary file / nowhere; around it a canary tree with odd modes, three sibling layers (two sharing the name prefix) with TOML, SBOM and env, lay.toml.bak, store.toml. Three deletion routes: uncached_layer, cached_layer + DeleteLayer, handle_layer + Recreate; each case in a fresh worker process, once after dropping to uid/gid 65534 (tree chowned to it, so permission bits bind) and once as root. Oracle: (a) always: lstat snapshot (content, mode, link target) of everything outside <layers>/lay, lay.toml, lay.sbom.* identical before/after; (b) on Ok: the layer path is a real empty directory, no old entry exists, SBOM gone; a real-directory layer owned by the caller must be deleted successfully. Non-trivial: the layer path is a symlink, or the tree has a symlink whose target lies outside the layer, or a nested directory lacks w or x; distinct = hash of the case.");
     ctx.assume("a regular file at the layer path is not generated; unprivileged pass needs setuid(65534) to succeed");
     let scratch = Scratch::new("c11");
     for (_p, v) in ctx.regress_files() {
